@@ -51,41 +51,51 @@ def judge(sd, path, name, timeout):
     return r, rep
 
 
-def synthetic_selftest():
-    """A tiny hand-made table with one defect per table clause: every one must be flagged, nothing else."""
-    E = lambda s: {"s": s, "c": cp(s)}
-    cat = {"msg.ok": {"en": E("fine {{a}} {{b|card x,y}}"), "fr": E("bien {{b|card u,v}} {{a}}")},
-           "msg.ph": {"en": E("count {{n}}"), "fr": E("nombre {{m}}"), "es": E("cuenta {{n|%d}}")},
-           "msg.empty": {"en": E(""), "fr": E("x")},
-           "msg.noen": {"fr": E("seulement")},
-           "label.Plain": {"en": E("Plain")},
-           "opt.o1": {"en": E("an option")},
-           "log.a.b": {"en": E("logged {{x}}")},
-           "error.e1": {"en": E("error.prefixed text")}}
-    recs = [{"t": "cat", "id": 0, "shipped": ["en", "fr"], "supported": ["en", "fr", "xx"], "cat": cat}]
+SYN = "zz.verif."
 
-    def site(i, kind, key, out, live=True):
-        recs.append({"t": "site", "id": i, "kind": kind, "key": key, "kc": cp(key), "n": 1, "live": live, "dead": "", "where": "selftest",
-                     "out": out})
-    site(1, "M", "ok", {"en": "fine {{a}} {{b|card x,y}}", "fr": "bien {{b|card u,v}} {{a}}"})      # fine
-    site(2, "M", "noen", {"en": "noen", "fr": "seulement"})                                        # no English text
-    site(3, "M", "absent", {"en": "absent", "fr": "absent"})                                       # no text at all
-    site(4, "L", "Plain", {"en": "Plain", "fr": "Plain"})                                          # fine (text equals the key)
-    site(5, "Opt", "o1", {})                                                                       # fine via "opt."
-    site(6, "Opt", "o2", {})                                                                       # no text
-    site(7, "Log", "a.b", {"en": "logged {{x}}", "fr": "logged {{x}}"})                            # fine via "log."
-    site(8, "Log", "free text. with blanks", {"en": "free text. with blanks", "fr": "free text. with blanks"})   # not a key
-    site(9, "Err", "_signal", {"en": "signal", "fr": "signal"})                                    # flow signal: not a key
-    site(10, "Err", "e1", {"en": "prefixed text", "fr": "prefixed text"})                          # fine (prefix stripped twice)
-    site(11, "Err", "e1", {"en": "error.prefixed text", "fr": "prefixed text"})                    # sink shows something else
-    site(12, "M", "absent2", {"en": "absent2", "fr": "absent2"}, live=False)                       # dead site: not judged
-    site(13, "M", "ok", {"en": "fine {{a}} {{b|card x,y}}", "fr": "fine {{a}} {{b|card x,y}}"})    # fr shown in English though a fr text exists
-    recs.append({"t": "neg", "id": 14, "items": [{"tag": ["f", "r"], "q": ""}], "hdr": "fr", "reply": "fr"})
-    recs.append({"t": "neg", "id": 15, "items": [{"tag": ["x", "x"], "q": ""}], "hdr": "xx", "reply": "xx"})
-    want = {(0, "placeholders/msg.ph/fr"), (0, "empty-text/msg.empty/en"), (0, "catalog-language-not-shipped/xx"),
-            (2, "no-english-text/msg.noen"), (3, "no-text/M/msg.absent"), (6, "no-text/Opt/o2"),
-            (11, "lookup/Err/error.e1/en"), (13, "lookup/M/msg.ok/fr"), (15, "negotiate-unshipped/xx")}
-    return recs, want
+
+def synthetic_selftest(shipped):
+    """Hand-made catalog entries and keys (all under zz.verif.) with one defect per clause of the contract, judged in the same
+    TLC run as the real table: every defect must be flagged and nothing else about them."""
+    E = lambda s: {"s": s, "c": cp(s)}
+    other = [l for l in shipped if l != "en"][0]
+    cat = {"msg.%sok" % SYN: {"en": E("fine {{a}} {{b|card x,y}}"), other: E("bien {{b|card u,v}} {{a}}")},
+           "msg.%sph" % SYN: {"en": E("count {{n}}"), other: E("nombre {{m}}"), "xx": E("cuenta {{n|%d}}")},
+           "msg.%sempty" % SYN: {"en": E(""), other: E("x")},
+           "msg.%snoen" % SYN: {other: E("seulement")},
+           "label.%sPlain" % SYN: {"en": E(SYN + "Plain")},
+           "opt.%so1" % SYN: {"en": E("an option")},
+           "log.%sa.b" % SYN: {"en": E("logged {{x}}")},
+           "error.%se1" % SYN: {"en": E("error.prefixed text")}}
+    recs, n = [], [SELFTEST + 100]
+
+    def site(kind, key, out, live=True):
+        n[0] += 1
+        o = {l: out.get(l, out.get("*", out.get("en"))) for l in shipped} if out else {}
+        recs.append({"t": "site", "id": n[0], "kind": kind, "key": SYN + key, "kc": cp(SYN + key), "n": 1, "live": live, "dead": "",
+                     "where": "selftest", "out": o})
+        return n[0]
+    want = {(0, "placeholders/msg.%sph/%s" % (SYN, other)), (0, "empty-text/msg.%sempty/en" % SYN), (0, "catalog-language-not-shipped/xx")}
+    site("M", "ok", {"en": "fine {{a}} {{b|card x,y}}", other: "bien {{b|card u,v}} {{a}}"})              # fine
+    i = site("M", "noen", {"en": SYN + "noen", other: "seulement"})                                        # no English text
+    want.add((i, "no-english-text/msg.%snoen" % SYN))
+    i = site("M", "absent", {"en": SYN + "absent"})                                                        # no text at all
+    want.add((i, "no-text/M/msg.%sabsent" % SYN))
+    site("L", "Plain", {"en": SYN + "Plain"})                                                              # fine (the text equals the key)
+    site("Opt", "o1", {})                                                                                  # fine through "opt."
+    i = site("Opt", "o2", {})                                                                              # no text
+    want.add((i, "no-text/Opt/%so2" % SYN))
+    site("Log", "a.b", {"en": "logged {{x}}"})                                                             # fine through "log."
+    site("Log", "free text. with blanks", {"en": SYN + "free text. with blanks"})                          # not a key
+    site("Err", "e1", {"en": "prefixed text"})                                                             # fine (prefix stripped)
+    i = site("Err", "e1", {"en": "error.prefixed text", "*": "prefixed text"})                           # the sink shows something else
+    want.add((i, "lookup/Err/error.%se1/en" % SYN))
+    site("M", "absent2", {"en": SYN + "absent2"}, live=False)                                              # dead site: not judged
+    i = site("M", "ok", {"en": "fine {{a}} {{b|card x,y}}"})                                               # English shown although a translation exists
+    want.add((i, "lookup/M/msg.%sok/%s" % (SYN, other)))
+    recs.append({"t": "site", "id": n[0] + 1, "kind": "Err", "key": "_zzverif", "kc": cp("_zzverif"), "n": 1, "live": True, "dead": "",
+                 "where": "selftest", "out": {l: "zzverif" for l in shipped}})                             # flow signal: not a key
+    return cat, recs, want
 
 
 def run():
@@ -117,11 +127,8 @@ def run():
                                workers=2, timeout=900 * T, env=JVM)
             controls = [("I18nTable_MC", "I18nTable_MC_nofallback.cfg", "Holds", "lookup without the English fallback"),
                         ("I18nNeg_MC", "I18nNeg_MC_nocheck.cfg", "OnlyShipped", "negotiation returning the first candidate unchecked"),
-                        ("I18nNeg_MC", "I18nNeg_MC_fulltag.cfg", "OnlyShipped", "negotiation returning the whole tag")]
+                        ("I18nNeg_MC", "I18nNeg_MC_fulltag.cfg", "OnlyShipped", "negotiation returning the whole tag")][:3 if thorough else 2]
             f_neg = [side.submit(vf.tlc, SPEC, m, c, sd, workers=1, timeout=600, env=JVM) for m, c, _, _ in controls]
-            srecs, swant = synthetic_selftest()
-            spath = vf.write_ndjson(os.path.join(sd, "selftest.ndjson"), srecs)
-            f_syn = side.submit(judge, sd, spath, "synthetic self-test", 600)
             # 1. NegotiateLanguage as a machine, exhaustive over the header space; the same run prints every header
             r = vf.tlc_ok(vf.tlc(SPEC, "I18nNeg_MC", "I18nNeg_MC.cfg" if thorough else "I18nNeg_MCq.cfg", sd,
                                  workers=min(vf.NCPU, 6), timeout=2400 if thorough else 900, env=JVM, keep_stdout=False), "I18nNeg MC")
@@ -169,8 +176,14 @@ def run():
             raise vf.NoVerdict("implausible extraction: sites by kind %s, %d catalog keys, shipped %s" % (bykind, m["catalog_keys"], m["shipped"]))
         stage("harness done (%d keys, %d headers)" % (len(sites), nh))
         # 3. binding self-test: known-bad copies of real records ride at the end of the log
-        cat = json.loads(catline)["cat"]
-        st_recs, st_want = [], {}
+        catrec = json.loads(catline)
+        cat = catrec["cat"]
+        scat, srecs, swant = synthetic_selftest(m["shipped"])
+        if any(k in cat for k in scat) or "xx" in catrec["supported"]:
+            raise vf.NoVerdict("self-test keys clash with the real catalog")
+        catrec["cat"] = dict(cat, **scat)
+        catrec["supported"] = catrec["supported"] + ["xx"]
+        st_recs, st_want = list(srecs), {}
         for s in sites:
             if s["kind"] == "M" and s["live"] and ("msg." + s["key"]) in cat and all(l in s["out"] for l in m["shipped"]):
                 fr = [l for l in m["shipped"] if l != "en"][vf.SEED % (len(m["shipped"]) - 1)]
@@ -187,8 +200,8 @@ def run():
         if len(st_want) != 3:
             raise vf.NoVerdict("self-test: no record to corrupt")
         # 4. TLC judges every record (catalog + keys in one run; the headers in chunks beside it)
-        minicat = json.dumps({"t": "cat", "id": 0, "shipped": m["shipped"], "supported": json.loads(catline)["supported"], "cat": {}})
-        parts = [("catalog+keys", [catline] + sitelines + [json.dumps(b) for b in st_recs if b["t"] == "site"])]
+        minicat = json.dumps({"t": "cat", "id": 0, "shipped": m["shipped"], "supported": catrec["supported"], "cat": {}})
+        parts = [("catalog+keys", [json.dumps(catrec)] + sitelines + [json.dumps(b) for b in st_recs if b["t"] == "site"])]
         negs = neglines + [json.dumps(b) for b in st_recs if b["t"] == "neg"]
         if len(negs) <= 12000:
             parts[0] = (parts[0][0] + "+headers", parts[0][1] + negs)
@@ -218,12 +231,12 @@ def run():
         for i_, key in st_want.items():
             if got.get(i_) != {key}:
                 raise vf.NoVerdict("binding self-test failed: known-bad record %d: expected {%s}, contract said %s" % (i_ - SELFTEST, key, got.get(i_)))
-        _rs, srep = f_syn.result()
-        sgot = {(b["id"], b["key"]) for b in srep["bad"]}
+        issyn = lambda b: b["id"] > SELFTEST + 100 or (b["id"] == 0 and (SYN in b["key"] or b["key"] == "catalog-language-not-shipped/xx"))
+        sgot = {(b["id"], b["key"]) for b in bad if issyn(b)}
         if sgot != swant:
             raise vf.NoVerdict("contract self-test on the synthetic table failed: missing %s, unexpected %s" % (sorted(swant - sgot), sorted(sgot - swant)))
         chk.cov["binding_selftest"] = ("3 corrupted copies of real records (one language's output altered, key replaced by an unknown one, "
-                                       "reply 'de') and 9 defects of a synthetic table all flagged, nothing else flagged")
+                                       "reply 'de') and 9 defects of hand-made entries/keys merged into the judged table all flagged, nothing else about them flagged")
         # model-level runs
         rm = vf.tlc_ok(f_mc.result(), "I18nTable MC")
         chk.add_tlc(rm, "MC: lookup machine over every small catalog (Holds, FunctionAgrees)")
@@ -235,7 +248,7 @@ def run():
         stage("model runs collected")
         # verdict
         byid = {s["id"]: s for s in sites}
-        real = [b for b in bad if b["id"] <= SELFTEST]
+        real = [b for b in bad if b["id"] <= SELFTEST and not issyn(b)]
         for b in sorted(real, key=lambda b: b["key"]):
             key = b["key"]
             if b["id"] in byid:
@@ -254,8 +267,8 @@ def run():
                 what = "NegotiateLanguage(%r) = %r, not a shipped language %s" % (rec and rec["hdr"], rec and rec["reply"], m["shipped"])
                 replay = {"record": rec}
             chk.violation(key, what, replay)
-        wf_sites = judged - nh - 1 - len(st_recs)
-        chk.cov["traces_validated_against_impl"] = judged - len(st_recs)
+        wf_sites = judged - nh - 1
+        chk.cov["traces_validated_against_impl"] = judged
         chk.cov["evaluations"] = (wf_sites * len(m["shipped"])) + nh + m["catalog_keys"]
         chk.cov["distinct_nontrivial"] = wf_sites
         chk.cov["emitted_keys"] = {"distinct_kind_key": len(sites), "by_kind": bykind, "judged_as_message_keys": wf_sites,
